@@ -81,8 +81,12 @@ func NewNet(nc, nv int) *Net {
 	return n
 }
 
-func (n *Net) ValidatorSigner() neotest.Signer { return neotest.NewMultiSigner(slices.Clone(n.Validators)...) }
-func (n *Net) CommitteeSigner() neotest.Signer { return neotest.NewMultiSigner(slices.Clone(n.Committee)...) }
+func (n *Net) ValidatorSigner() neotest.Signer {
+	return neotest.NewMultiSigner(slices.Clone(n.Validators)...)
+}
+func (n *Net) CommitteeSigner() neotest.Signer {
+	return neotest.NewMultiSigner(slices.Clone(n.Committee)...)
+}
 
 // Config returns the chain configuration of the network with node-local adjustments applied by hook.
 func (n *Net) Config(hook func(*config.Blockchain)) config.Blockchain {
